@@ -381,3 +381,7 @@ LEAN_MODULES = LEAN_MODULES + ["KaVerif.Props.Rounding"]
 THEOREMS = THEOREMS + ["KaVerif.ROUND_decode", "KaVerif.ROUND_decode_units", "KaVerif.ROUND_monotone_bits", "KaVerif.ROUND_order_iff",
                        "KaVerif.ROUND_nearest", "KaVerif.ROUND_ties_even", "KaVerif.ROUND_overflow", "KaVerif.ROUND_zero",
                        "KaVerif.ROUND_underflow", "KaVerif.ROUND_exact", "KaVerif.ROUND_exact_lowest_terms"]
+LEVEL_TEXT = LEVEL_TEXT + (" The model's rational -> double conversion (`float(int)`, `float(Fraction)`; `Num.posRatToBits`) is machine-checked against "
+                           "IEEE-754 binary64 round-to-nearest, ties-to-even at the level of bit patterns: nearest finite double, even mantissa on a tie, "
+                           "overflow exactly from 2^1024 - 2^970, +0 exactly up to 2^-1075, a double's exact value rounds to itself; the order of finite "
+                           "patterns is the order of their values (theorems ROUND_*).")
